@@ -69,6 +69,15 @@ def opt_text(e, k):
     return cp(e[k]) if k in e else [-1]
 
 
+def opt_bytes(e, k):
+    """a shown text as the bytes it stands for (its UTF-8 encoding: for ASCII the code points themselves)"""
+    if k not in e:
+        return [-1]
+    if not isinstance(e[k], str):
+        raise ShapeError('expected string, got %r' % (e[k],))
+    return list(e[k].encode('utf-8', 'surrogatepass'))
+
+
 def opt_flag(e, k):
     if k not in e:
         return 'absent'
@@ -129,7 +138,7 @@ def callout(c):
     if not isinstance(c, dict):
         raise ShapeError('callout is not an object')
     return dict(frutype=_str(get(c, 'FRU Type')), prio=_str(get(c, 'Priority')),
-                loc=opt_text(c, 'Location Code'), pn=opt_text(c, 'Part Number'), proc=opt_text(c, 'Procedure'),
+                loc=opt_bytes(c, 'Location Code'), pn=opt_text(c, 'Part Number'), proc=opt_text(c, 'Procedure'),
                 ccin=opt_text(c, 'CCIN'), sn=opt_text(c, 'Serial Number'), pcemtms=opt_text(c, 'PCE MTMS'),
                 pcename=opt_text(c, 'PCE Name'), mruid=opt_text(c, 'MRU Id'))
 
